@@ -26,6 +26,7 @@ R15.9 a looked-up distance of 0.0 is not treated as missing (phylo/util.py).
 R15.10 DistanceMatrix.__getitem__ does not write to the matrix it reads (known finding).
 R15.11 _expand reads alias distances from the table it is filling.
 R15.12 the duplicate relation is established on the sequences themselves (known finding: it is not).
+R15.13 UPGMA's working array is float before its diagonal is overwritten in place.
 R15.5 closed forms small enough to decide symbolically: the proportion different is (total - trace) / total,
       JC69 is c * log(a + b * p) with (a, b, c) = (1, -4/3, -3/4) and is refused for p >= 3/4 -- extracted
       by folding the function body to an affine form in p with exact rationals (not by running it).
@@ -490,8 +491,27 @@ def r15_12(chk):
     chk.floor("R15.12", 1, "duplicate shortcut")
 
 
+def r15_13(chk):
+    chk.rule("R15.13", "UPGMA accepts every ultrametric matrix, integer-valued ones included: the array whose diagonal inputs_from_dict_array overwrites IN PLACE with the float BIG_NUM is a float array -- upgma() builds its DictArray with dtype=float (or the helper converts / adds out of place); an int64 array cannot take the in-place float addition and upgma({('a','b'): 2, ('a','c'): 6, ('b','c'): 6}) raises")
+    m = chk.repo.module("cluster/UPGMA.py")
+    h = m.func("inputs_from_dict_array")
+    inplace = [st for st in walk_no_nested(h) if isinstance(st, ast.AugAssign) and "array" in norm(st.target)]
+    k = key(m, "upgma", "distances are floats before the in-place diagonal")
+    if not inplace:
+        chk.ok("R15.13", k, m.loc(h), "no in-place arithmetic on the caller's array", nontrivial=False)
+        chk.floor("R15.13", 0, "")
+        return
+    conv = any(isinstance(c, ast.Call) and isinstance(c.func, ast.Attribute) and c.func.attr == "astype" for c in walk_no_nested(h))
+    u = m.func("upgma")
+    mk = [c for c in walk_no_nested(u) if isinstance(c, ast.Call) and call_name(c) == "DictArray"]
+    typed = any(kw.arg == "dtype" and norm(kw.value) in ("float", "numpy.float64", "float64") for c in mk for kw in c.keywords)
+    chk.decide(conv or typed, "R15.13", k, m.loc(mk[0] if mk else u), "DictArray(..., dtype=float)" if typed else "converted with astype", f"`{norm(inplace[0])[:60]}` adds a float in place to an array whose dtype follows the caller's values: all-integer distances give int64 and the addition raises UFuncTypeError")
+    chk.floor("R15.13", 1, "upgma")
+
+
 def run(chk):
     r15_1(chk)
+    r15_13(chk)
     r15_12(chk)
     r15_11(chk)
     r15_9(chk)
